@@ -1187,6 +1187,106 @@ func ruleCmpShape(c *Ctx) {
 					l.add("R-CMPSHAPE", b.Name, key, b.posOf(al), Discharged, "every use of the decoded map lies behind its != nil edge, and the nil edge returns an error", true)
 				}
 			})
+			// the decode (and its nil test) extracted into a helper: (map, ok) or (map, error), where
+			// the helper answers ok / nil only with a map that is not nil, and the object form
+			// rejects on the other answer before the maps are compared
+			if n == 0 {
+				for _, use := range callsTo(co, func(cc *ssa.CallCommon) bool { f := cc.StaticCallee(); return f != nil && f == b.roleFn("getDiff") }) {
+					for ai, arg := range use.Common().Args {
+						ex, ok := arg.(*ssa.Extract)
+						if !ok || ex.Index != 0 {
+							continue
+						}
+						if _, isMap := arg.Type().Underlying().(*types.Map); !isMap {
+							continue
+						}
+						hc, ok := ex.Tuple.(*ssa.Call)
+						if !ok {
+							continue
+						}
+						h := hc.Call.StaticCallee()
+						if h == nil || h.Pkg != b.Lib || len(h.Blocks) == 0 || h.Signature.Results().Len() != 2 {
+							continue
+						}
+						n++
+						key := fmt.Sprintf("%s: decoded member map #%d is tested for nil, and a null input rejected, before the maps are compared", b.roleNameOf(co), ai+1)
+						bad := ""
+						// (1) the helper vouches for the map
+						for _, r := range returnsOf(h) {
+							m, x := r.Results[0], r.Results[1]
+							if isNilConst(m) {
+								continue
+							}
+							vouched := false
+							if bo, ok := x.(*ssa.BinOp); ok && bo.Op == token.NEQ && isNilConst(bo.Y) && sameLoadedVar(bo.X, m) {
+								vouched = true
+							}
+							for _, t := range nilTests(h, m) {
+								if edgeDominates(t.Blk, t.NonNilSucc, r.Block()) {
+									vouched = true
+								}
+							}
+							if ld, ok := m.(*ssa.UnOp); ok {
+								for _, bb := range h.Blocks {
+									iff, isIf := lastInstr(bb).(*ssa.If)
+									if !isIf {
+										continue
+									}
+									v, nnTrue, isNil := nilTestOfCond(iff.Cond)
+									if !isNil || !sameLoadedVar(v, ld) {
+										continue
+									}
+									nn := 1
+									if nnTrue {
+										nn = 0
+									}
+									if edgeDominates(bb, nn, r.Block()) {
+										vouched = true
+									}
+								}
+							}
+							if !vouched {
+								bad = "the helper " + fname(h) + " can hand back a nil map as a success at " + b.posOf(r) + ": the text null decodes into a nil map without an error"
+							}
+						}
+						// (2) the object form rejects on the helper's failure answer
+						guarded := false
+						if isErrorType(h.Signature.Results().At(1).Type()) {
+							if ok, _ := b.successDominates(hc, use); ok {
+								guarded = true
+							}
+						} else {
+							for _, e1 := range extractOf(hc, 1) {
+								for _, bb := range co.Blocks {
+									iff, isIf := lastInstr(bb).(*ssa.If)
+									if !isIf {
+										continue
+									}
+									cv, neg := stripNot(iff.Cond)
+									if cv != e1 {
+										continue
+									}
+									okSucc := 0
+									if neg {
+										okSucc = 1
+									}
+									if edgeDominates(bb, okSucc, use.Block()) && b.rejects(bb.Succs[1-okSucc]) {
+										guarded = true
+									}
+								}
+							}
+						}
+						if bad == "" && !guarded {
+							bad = "the failure answer of " + fname(h) + " does not make the object form return an error before the maps are compared"
+						}
+						if bad != "" {
+							l.add("R-CMPSHAPE", b.Name, key, b.posOf(hc), Violated, bad, true)
+						} else {
+							l.add("R-CMPSHAPE", b.Name, key, b.posOf(hc), Discharged, fname(h)+" answers success only with a map that is not nil, and its failure answer is rejected before the maps are compared", true)
+						}
+					}
+				}
+			}
 			if n == 0 {
 				l.add("R-CMPSHAPE", b.Name, b.roleNameOf(co)+": decoded member maps are tested for nil", b.rel(co.Pos()), Undecided, "no decode into a local member map found in the object form", false)
 			}
